@@ -100,28 +100,37 @@ func dedupLoop(configArgs map[string]string, w *fsnotify.Watcher, completedChann
 	// finishes last - possibly the one that read the older contents - would determine what is left on disk.
 	// A regeneration that has to wait here reads the package once it gets its turn.
 	var regenerateMutex sync.Mutex
+	const waitFor = 5 * time.Millisecond
+	var timer *time.Timer
+	watchedDirs := make(map[string]bool)
 	regenerate := func() {
 		regenerateMutex.Lock()
 		defer regenerateMutex.Unlock()
 		verifhook.Emit("RegenStart")
 		defer verifhook.Emit("RegenEnd")
-		dirsToWatch := generateInWatchMode(configArgs)
-		if dirsToWatch != nil && len(dirsToWatch) > len(w.WatchList()) {
-			for _, dir := range dirsToWatch {
-				if err := w.Add(dir); err != nil {
-					completedChannel <- err
-					return
-				}
+		newlyWatched := false
+		for _, dir := range generateInWatchMode(configArgs) {
+			if watchedDirs[dir] {
+				continue
 			}
+			if err := w.Add(dir); err != nil {
+				completedChannel <- err
+				return
+			}
+			watchedDirs[dir] = true
+			newlyWatched = true
 		}
 
+		if newlyWatched {
+			// Files in these directories may have changed after they were read and before they were being watched
+			timer.Reset(waitFor)
+		}
 	}
 
-	regenerate()
-
-	const waitFor = 5 * time.Millisecond
-	timer := time.AfterFunc(math.MaxInt64, regenerate)
+	timer = time.AfterFunc(math.MaxInt64, regenerate)
 	timer.Stop()
+
+	regenerate()
 
 	for {
 		select {
@@ -160,6 +169,10 @@ func generateInWatchMode(configArgs map[string]string) []string {
 	screen.Clear()
 	screen.MoveTopLeft()
 
+	// The packages that could be loaded are watched whether or not the model is valid,
+	// so that an error in an imported package or a previous version can be repaired there
+	dirsToWatch := referencedPackageDirs(packageInfo)
+
 	if err != nil {
 		log.Error().Msg(err.Error())
 	} else {
@@ -168,14 +181,37 @@ func generateInWatchMode(configArgs map[string]string) []string {
 			log.Warn().Msg(warning)
 		}
 		WriteSuccessfulSummary(packageInfo)
-
-		var dirsToWatch []string
-		for _, ref := range packageInfo.GetAllReferencedPackages() {
-			dirsToWatch = append(dirsToWatch, ref.PackageDir())
-		}
-		return dirsToWatch
 	}
-	return nil
+	return dirsToWatch
+}
+
+// The directories of all imported packages and previous versions that were loaded,
+// tolerating a package tree that is incomplete because loading failed part-way
+func referencedPackageDirs(packageInfo *packaging.PackageInfo) []string {
+	var dirs []string
+	seen := make(map[*packaging.PackageInfo]bool)
+	var visit func(p *packaging.PackageInfo, include bool)
+	visit = func(p *packaging.PackageInfo, include bool) {
+		if p == nil || seen[p] {
+			return
+		}
+		seen[p] = true
+		if include {
+			dirs = append(dirs, p.PackageDir())
+		}
+		for _, imp := range p.Imports {
+			if imp != nil {
+				visit(imp.Package, true)
+			}
+		}
+		for _, ver := range p.Versions {
+			if ver != nil {
+				visit(ver.Package, true)
+			}
+		}
+	}
+	visit(packageInfo, false)
+	return dirs
 }
 
 func WriteSuccessfulSummary(packageInfo *packaging.PackageInfo) {
